@@ -65,7 +65,7 @@ class StepLog:
         self.attempts = []      # list of dicts per attempt
         self.calls = []         # per __call__: list of attempt indices
         self._intg = integrator
-        orig = integrator.step
+        orig = getattr(integrator, "step", None)
         log = self
 
         def step(rhs, initial_time, initial_state, constants, timestep):
@@ -81,7 +81,20 @@ class StepLog:
                 rec["newton_ok"] = bool(sd["newton_iteration_success"])
             return out
 
-        integrator.step = step
+        if hasattr(integrator, "adaptive_richardson"):
+            orig_ar = integrator.adaptive_richardson
+
+            def adaptive_richardson(rhs, t, y, constants, timestep):
+                rec = {"h": float(np.asarray(timestep)), "t": float(np.asarray(t)), "raised": None, "richardson": True}
+                log.attempts.append(rec)
+                try:
+                    return orig_ar(rhs, t, y, constants, timestep)
+                except BaseException as e:
+                    rec["raised"] = type(e).__name__
+                    raise
+            integrator.adaptive_richardson = adaptive_richardson
+        else:
+            integrator.step = step
 
 
 # --------------------------------------------------------------------------------------------
